@@ -144,3 +144,41 @@ Fixpoint infer_value (d : json) : outcome ierr shape :=
          | (k, v) :: r => obind (infer_value v) (fun s => go r (map_insert k s acc))
          end) m []
   end.
+
+(* ---------- helpers shared by the API layer and by the statements ---------- *)
+Fixpoint mapM_o {E A B} (f : A -> outcome E B) (l : list A) : outcome E (list B) :=
+  match l with
+  | [] => Ok []
+  | x :: r => obind (f x) (fun s => obind (mapM_o f r) (fun ss => Ok (s :: ss)))
+  end.
+
+(* KF1: two object elements of one array carry the same key with different value shapes
+   (the array-of-objects fold keeps the first one only).  This decidable predicate is the
+   carve-out of the C01 theorem AND the run-time test for the known-finding class. *)
+Definition key_conflict (es : list shape) : bool :=
+  existsb (fun e =>
+    match e with
+    | SObject c _ =>
+        existsb (fun e' =>
+          match e' with
+          | SObject c' _ =>
+              existsb (fun kv => match map_get (fst kv) c' with
+                                 | Some s' => negb (shape_eqb (snd kv) s')
+                                 | None => false
+                                 end) c
+          | _ => false
+          end) es
+    | _ => false
+    end) es.
+
+Fixpoint conflict_free (d : json) : bool :=
+  match d with
+  | JArr l =>
+      forallb conflict_free l &&
+      match mapM_o infer_text l with
+      | Ok es => negb (len_gt1 es && forallb is_object es && key_conflict es)
+      | _ => true
+      end
+  | JObj m => forallb (fun kv => conflict_free (snd kv)) m
+  | _ => true
+  end.
